@@ -79,7 +79,9 @@ Fixpoint c02_chain (prev : Z) (l : list (Z * Z * list (Z * Z))) (check_master : 
    (checked on the final observation of the step, where the view is observable) *)
 Definition c02_follows (me prev : Z) (o : nobs) : bool :=
   let f := obs_fsm o in
-  Z.eqb prev f || negb (needs_master f) || Z.eqb (obs_master o) me || Z.eqb (obs_mstate o) f.
+  Z.eqb prev f || negb (needs_master f) || Z.eqb (obs_master o) me || Z.eqb (obs_mstate o) f
+  (* DISTRIBUTION may be entered when the Master is already beyond it (it entered DISTRIBUTION earlier) *)
+  || (Z.eqb f 3 && (Z.eqb (obs_mstate o) 4 || Z.eqb (obs_mstate o) 5)).
 
 Fixpoint c02_walk (me prev : Z) (obss : list obs) (check_master exempt follows : bool) : bool :=
   match obss with
@@ -109,7 +111,7 @@ Definition c13_isolated_frozen (before after : list (Z * Z * Z * Z * Z)) (outs :
            end) before.
 
 (* handshake fences: the authorization result is taken into account only in CHECKING with a newer timestamp *)
-Definition c13_auth (e : event) (before after : list (Z * Z * Z * Z * Z)) : bool :=
+Definition c13_auth (me : Z) (e : event) (before after : list (Z * Z * Z * Z * Z)) : bool :=
   match e with
   | Auth og a ts _ =>
       match (if og_addr_ok og then og_resolved og else None) with
@@ -121,7 +123,7 @@ Definition c13_auth (e : event) (before after : list (Z * Z * Z * Z * Z)) : bool
               else if Z.eqb s 1 && Z.ltb ct ts then
                 match a with
                 | A_AUTHORIZED => Z.eqb s' 2
-                | A_NOT_AUTHORIZED | A_INCONSISTENT => Z.eqb s' 5
+                | A_NOT_AUTHORIZED | A_INCONSISTENT => if Z.eqb j me then Z.eqb s' 0 else Z.eqb s' 5   (* the local instance is never ISOLATED *)
                 | A_UNKNOWN => Z.eqb s' 0
                 end
               else Z.eqb s' s
@@ -211,7 +213,7 @@ Fixpoint nspec_walk (fl : nspec_flags) (n0 : node) (prev_fsm prev_master : Z) (p
       (negb (f_c02_graph fl)
        || (c02_chain prev_fsm (pub_chain o) (f_c02_master fl) (f_c02_exempt_shutdown fl)
            && (negb (f_c02_follows fl) || c02_follows (n_me n0) prev_fsm o)))
-      && (negb (f_c13 fl) || (c13_isolated_frozen prev_ist (obs_ist o) (obs_outs o) && c13_auth e prev_ist (obs_ist o)))
+      && (negb (f_c13 fl) || (c13_isolated_frozen prev_ist (obs_ist o) (obs_outs o) && c13_auth (n_me n0) e prev_ist (obs_ist o)))
       && (negb (f_c07 fl) || (c07_graph (n_me n0) prev_ist (obs_ist o)
                               && c07_detection (n_me n0) (o_inactivity (n_opts n0)) (o_auto_fence (n_opts n0))
                                                e prev_ist (obs_ist o)))
